@@ -298,14 +298,17 @@ def ifs_raising(fn: ast.AST, exc_name: str) -> list[ast.If]:
     return out
 
 
-def skeleton(fn: ast.AST, holes: dict | None = None) -> str:
-    """normalised source text of a function or class (ast.unparse: layout and comments do not matter), docstring stripped,
-    with the given sub-expression texts replaced by hole names (longest first)"""
+def skeleton(fn: ast.AST, holes: dict | None = None, deep: bool = False) -> str:
+    """normalised source text of a function or class (ast.unparse: layout and comments do not matter), docstring stripped
+    (with deep=True also the docstrings of every nested function / class), with the given sub-expression texts replaced by
+    hole names (longest first)"""
     import copy
     fn = copy.deepcopy(fn)
-    if getattr(fn, "body", None) and isinstance(fn.body[0], ast.Expr) and isinstance(fn.body[0].value, ast.Constant) \
-            and isinstance(fn.body[0].value.value, str):
-        fn.body = fn.body[1:] or [ast.Pass()]
+    for node in (ast.walk(fn) if deep else [fn]):
+        if isinstance(node, (ast.FunctionDef, ast.AsyncFunctionDef, ast.ClassDef)) and node.body \
+                and isinstance(node.body[0], ast.Expr) and isinstance(node.body[0].value, ast.Constant) \
+                and isinstance(node.body[0].value.value, str):
+            node.body = node.body[1:] or [ast.Pass()]
     t = ast.unparse(fn)
     for k, v in sorted((holes or {}).items(), key=lambda kv: -len(kv[0])):
         t = t.replace(k, v)
